@@ -292,9 +292,15 @@ def run(ctx):
     os.makedirs(scratch)
     reqs, meta = [], []
     try:
-        for k in range(ctx.n(40, 300)):
+        # every cell regime x every format that stores a cell is visited once (3 frames, 10 atoms) before the random cases
+        CELLMODES = ["none", "ortho", "ortho-varying", "tri", "tri-varying", "tri-mono", "tri-hex", "tri-rdod", "tri-mono-varying", "tri-acute", "tri-after-ortho-varying"]
+        forced = [(cm, ext) for cm in CELLMODES if cm != "none" for ext in ["h5", "xtc", "trr", "dcd", "nc", "lammpstrj", "gro", "dtr", "rst7", "ncrst", "mdcrd", "pdb"]]
+        n_forced = len(forced) if not ctx.quick else len(forced)
+        for k in range(n_forced + ctx.n(40, 300)):
             na = rng.choice([1, 2, 3, 8, 9, 10, 11, 50])
             nf = rng.choice([1, 2, 3, 10])
+            if k < n_forced:
+                na, nf = 10, 3
             mag = rng.choice([0.01, 1.0, 9.0, 90.0])
             xyz = np.array([[[rng.choice([-1, 1]) * rng.uniform(0.001, 1) * mag for _ in range(3)] for _ in range(na)] for _ in range(nf)])
             xyz = (np.round(xyz * 1024) / 1024 + 0.0).astype(np.float32)          # + 0.0: no negative zeros (a Rat has none)
@@ -306,7 +312,7 @@ def run(ctx):
                 time = (time * np.float32(2.0 ** -20)).astype(np.float32)
             elif tmode == "huge":                            # long runs: 2^24 ps and beyond (still exactly representable steps)
                 time = (time * np.float32(2.0 ** 22)).astype(np.float32)
-            cellmode = rng.choice(["none", "ortho", "ortho-varying", "tri", "tri-varying", "tri-mono", "tri-hex", "tri-rdod", "tri-mono-varying", "tri-acute"])
+            cellmode = rng.choice(CELLMODES) if k >= n_forced else forced[k][0]
             top = make_top(md, na)
             t = md.Trajectory(xyz.copy(), top, time=time.copy())
             if cellmode != "none":
@@ -317,6 +323,8 @@ def run(ctx):
                     A = np.array([[90.0, 75.0 + (15.0 * (f % 3) if "varying" in cellmode else 0), 90.0] for f in range(nf)], dtype=np.float32)   # varying: 75, 90 (a rectangular frame), 105
                 elif "hex" in cellmode:
                     A = np.array([[90.0, 90.0, 120.0]] * nf, dtype=np.float32)
+                elif "after-ortho" in cellmode:               # a shear run: the first frame rectangular, the later ones increasingly tilted
+                    A = np.array([[90.0, 90.0, 90.0 - 5.0 * min(f, 4)] for f in range(nf)], dtype=np.float32)
                 elif "acute" in cellmode:                     # a rhombohedral cell with every angle and (below 6 nm) every length under 60
                     A = np.array([[55.0, 55.0, 55.0]] * nf, dtype=np.float32)
                 elif "rdod" in cellmode:
@@ -324,7 +332,7 @@ def run(ctx):
                 else:
                     A = np.array([[80.0, 75.0 + (f if "varying" in cellmode else 0), 65.0] for f in range(nf)], dtype=np.float32)
                 t.unitcell_lengths = L; t.unitcell_angles = A
-            for ext in rng.sample(FORMATS, 6):
+            for ext in (rng.sample(FORMATS, 6) if k >= n_forced else [forced[k][1]]):
                 base = MODEL.get(ext, ext)
                 prec = rng.choice([1, 2, 3, 3, 4, 6]) if base == "gro" else 3
                 opts = {}
